@@ -3,7 +3,7 @@
    message codecs; transcript = the exact bytes given to update_hash.  Every statement is for all
    configurations, all message sequences and all oracle behaviours satisfying the stated premises. *)
 From AQ Require Import lib.Base gen.TlsDispatch model.TlsSymbolic.
-From AQ Require Import gen.TlsTranscript proofs.TlsSymbolicP1 proofs.TlsSymbolicP2 proofs.TlsSymbolicP4 proofs.TlsSymbolicP3 proofs.TlsSymbolicPGen.
+From AQ Require Import gen.TlsTranscript proofs.TlsSymbolicP1 proofs.TlsSymbolicP2 proofs.TlsSymbolicP4 proofs.TlsSymbolicP5 proofs.TlsSymbolicP3 proofs.TlsSymbolicPGen.
 
 (* every message sequence, every oracle behaviour (no cryptographic premise needed): a client that reaches
    CLIENT_POST_HANDSHAKE verified a CertificateVerify (advertised algorithm) under the leaf of the certificate
@@ -88,6 +88,29 @@ Theorem transcript_agreement_run_partial :
            (DIR_ENCRYPT, EP_ONE_RTT, b, ks_derive O (ks_extract O (ks_update kF finm) None) L_c_ap_traffic)].
 Proof. exact transcript_agreement_run_x. Qed.
 Print Assumptions transcript_agreement_run_partial.
+
+(* run level: cipher suite, resumption flag, ALPN and early-data flag.  An honest server (not yet resumed) processed a
+   framed ClientHello chm and emitted its flight.  Any client - any configuration, any earlier message sequence - that
+   awaits the server Finished, whose own hello bytes are one framed message (codec: build_ch output; binder = tail),
+   and that accepts the Finished of that flight: sent exactly the hello the server processed, and holds the same
+   cipher suite, _session_resumed, alpn_negotiated and early_data_accepted as the server.
+   (PARTIAL only in the sense of the symbolic premises ideal_crypto / codec_ok and Finished provenance.) *)
+Theorem parameters_agreement_partial :
+  forall O, ideal_crypto O -> codec_ok O ->
+  forall sc ss chm ss' outS,
+  t_resumed ss = false -> framed chm ->
+  server_handle_hello O sc ss chm = (OOk, ss', outS) ->
+  exists finm, In (EP_HANDSHAKE, finm) outS /\
+    forall cc ms cs' outC,
+      let cs := run O cc (client_started O cc) ms in
+      t_state cs = CLIENT_EXPECT_FINISHED ->
+      framed (client_hello_tr O cc (t_resumed cs)) ->
+      client_handle_finished O cc cs finm = (OOk, cs', outC) ->
+      chm = client_hello_tr O cc (t_resumed cs) /\
+      k_suite (the_ks cs) = k_suite (the_ks ss') /\ t_resumed cs = t_resumed ss' /\
+      t_alpn cs = t_alpn ss' /\ t_early cs = t_early ss'.
+Proof. exact parameters_agreement_x. Qed.
+Print Assumptions parameters_agreement_partial.
 
 (* PARTIAL (per step): if ONE handshake message of the receiver's transcript differs from what the honest sender
    hashed (both framed, any position, any other content), the sender's Finished is refused: the client does not
